@@ -255,7 +255,7 @@ impl Prop for C03 {
                                     format!("auto-detect-outcome:{tag}:{}", o.class()),
                                     &x.choices(),
                                     "auto-detecting query outcome differs from the documented fall-through",
-                                    o.describe(),
+                                    o.describe_json(),
                                     match e {
                                         Ok(r) => to_json(r).to_string(),
                                         Err(()) => "Err(AutoQuery)".into(),
